@@ -433,7 +433,7 @@ class AssignedFeatureCounter(AbstractCounter):
                 for line in f:
                     if line.startswith('__'): break
                     if line.startswith('#'):
-                        outf.write(line.replace("count", "TPM"))
+                        outf.write(line.replace("count", "TPM") if self.ignore_read_groups else line)
                         continue
                     fs = line.rstrip().split('\t')
                     if self.ignore_read_groups:
